@@ -93,6 +93,58 @@ var c05EscapeCases = []struct{ expr, want string }{
 	{"m[`key not found`] != 1", "T"}, {"all m[`at part 1: couldn't find key: zz`] as v { v == 1 }", "T"}, {"m[`invalid`] is not empty", "F"}, {"m[`%!v(MISSING)`] == 1", "F"}, {"m[`%s`] != 1", "T"},
 }
 
+// mutually recursive struct types (not buildable with reflect.StructOf): a
+// map reachable only through the other type of the pair. Anything computed
+// per type while the other type of a cycle is still being looked at must not
+// be remembered as final.
+type c05RecA struct {
+	Owner *c05RecB
+	Tags  map[string]int
+	Name  string
+}
+type c05RecB struct {
+	Account *c05RecA
+	Age     int
+}
+type c05RecC struct {
+	Peer  *c05RecD
+	Attrs map[string]interface{}
+}
+type c05RecD struct {
+	N    int
+	Back *c05RecC
+}
+
+func c05Recursive(c *mon.Ctx) {
+	a := &c05RecA{Tags: map[string]int{"k": 1}, Name: "a"}
+	b := &c05RecB{Account: a, Age: 3}
+	a.Owner = b
+	cc := &c05RecC{Attrs: map[string]interface{}{"k": 1}}
+	d := &c05RecD{N: 1, Back: cc}
+	cc.Peer = d
+	steps := []struct {
+		datum interface{}
+		expr  string
+		want  string
+	}{
+		{a, `Tags.missing != 1`, "T"}, {b, `Account.Tags.missing != 1`, "T"}, {b, `Account.Tags.missing == 1`, "F"}, {b, `Account.Tags.missing is empty`, "T"}, {b, `all Account.Tags.missing as v { v == 1 }`, "T"},
+		{*b, `Account.Owner.Account.Tags.missing != 1`, "T"}, {d, `Back.Attrs.missing != 1`, "T"}, {cc, `Attrs.missing != 1`, "T"}, {cc, `Peer.Back.Attrs.missing is empty`, "T"}, {d, `Back.Peer.Back.Attrs.missing == 1`, "F"},
+		{b, `Account.Tags.k == 1`, "T"}, {b, `Account.Name.missing == 1`, "E"}, {b, `Age.missing == 1`, "E"},
+	}
+	for _, st := range steps {
+		ev, err, pan, _ := createEval(st.expr)
+		c.Evals(1)
+		if pan != "" || err != nil {
+			continue
+		}
+		if o := evaluate(ev, st.datum); o.Class3() != st.want {
+			c.Violation(fmt.Sprintf("C05 recursive-types got=%s want=%s", o.Class3(), st.want), "an absent map key reached through mutually recursive struct types does not follow the table", map[string]any{"expression": st.expr, "datum_type": fmt.Sprintf("%T", st.datum), "observed": o.String(), "expected": st.want})
+			return
+		}
+	}
+	c.Count("recursive_type_scenarios")
+}
+
 func c05Escapes(c *mon.Ctx, idx int) {
 	cs := c05EscapeCases[(idx/10)%len(c05EscapeCases)]
 	for _, withUnknown := range []bool{false, true} {
@@ -137,6 +189,9 @@ func c05Run(c *mon.Ctx, idx int) {
 	r := c.RNG(idx)
 	if idx%10 == 0 {
 		c05Escapes(c, idx)
+		if idx%50 == 0 {
+			c05Recursive(c)
+		}
 	}
 	doc := univ.GenObj(r, 3, true)
 	seed := r.Int63()
@@ -353,7 +408,7 @@ func init() {
 		NumCases:    func(tier string) int { return tierN(tier, 4000, 150000) },
 		Run:         c05Run,
 		Required: func(tier string) []string {
-			l := []string{"unknown:inserted-compared", "unknown:not-applicable", "resolving_unaffected", "alias_workload", "escape_cases", "history_sequences", "place-quant-same-name", "unknown:interface{}"}
+			l := []string{"unknown:inserted-compared", "unknown:not-applicable", "resolving_unaffected", "alias_workload", "escape_cases", "recursive_type_scenarios", "history_sequences", "place-quant-same-name", "unknown:interface{}"}
 			for _, k := range kinds {
 				l = append(l, "place-quant:"+k)
 				for _, op := range c01Ops {
